@@ -445,6 +445,12 @@ def analyse(ctx, cases, results, hashseeds):
                         break
             if dig(r["R"]) != dig(a):
                 add(comp, "second-call-on-same-object-differs", "", i, pair_detail(case, hs, "A", a, hs, "R", r["R"]))
+            rf = [(name, x["relation_failures"]) for name, x in runs + extra if x.get("relation_failures")]
+            if rf:
+                add(comp, "equal-seed-queries-disagree-within-one-run", "", i,
+                    {"case": case, "environment": {"PYTHONHASHSEED": hs}, "run": rf[0][0], "relations_violated": rf[0][1][:4],
+                     "note": "two computations that the property makes equal (same seed / equally seeded generator; history of other "
+                             "objects must not matter) gave different results inside one run"})
             if "XQ" in r and "BQ" in r:
                 counters["stale_result_requeries"] = counters.get("stale_result_requeries", 0) + 1
                 if dig(r["XQ"]) != dig(r["BQ"]):
@@ -523,7 +529,8 @@ def report_runtime(ctx, cases, fails):
                       "mutates-the-callers-constructor-inputs"):
             qual = "seed0-only" if all(c["seed"] == 0 for c in fc) else "any-seed"
             exhibited.setdefault((comp, "alias"), items[0][1])
-        elif axis in (CARRY_AXIS, "reused-object-on-second-problem-differs", "first-result-changes-after-the-object-is-used-again"):
+        elif axis in (CARRY_AXIS, "reused-object-on-second-problem-differs", "first-result-changes-after-the-object-is-used-again",
+                      "equal-seed-queries-disagree-within-one-run"):
             qual = "seed0-only" if all(c["seed"] == 0 for c in fc) else "any-seed"
             exhibited.setdefault((comp, "carry"), items[0][1])
         else:
